@@ -1,7 +1,7 @@
 use std::{borrow::Cow, fmt::Debug, io::Write, sync::Arc};
 
 use quick_xml::{
-    events::{attributes::Attribute, BytesStart, Event},
+    events::{attributes::Attribute, BytesStart, BytesText, Event},
     name::{QName, ResolveResult},
     ElementWriter, NsReader, Writer,
 };
@@ -214,15 +214,11 @@ where
     A: Action<Text>,
 {
     fn write_data<W: Write>(&self, writer: &mut Writer<W>) -> Result<(), WriteError> {
-        writer
+        // the payload is character data, not an XML fragment: it has to be escaped
+        _ = writer
             .create_element(A::TAG)
-            .write_inner_content(|writer| {
-                writer
-                    .get_mut()
-                    .write_all(self.as_ref().as_bytes())
-                    .map_err(|err| WriteError::Other(err.into()))
-            })
-            .map(|_| ())
+            .write_text_content(BytesText::new(self.as_ref()))?;
+        Ok(())
     }
 }
 
@@ -243,15 +239,11 @@ where
     A: Action<Json>,
 {
     fn write_data<W: Write>(&self, writer: &mut Writer<W>) -> Result<(), WriteError> {
-        writer
+        // the payload is character data, not an XML fragment: it has to be escaped
+        _ = writer
             .create_element(A::TAG)
-            .write_inner_content(|writer| {
-                writer
-                    .get_mut()
-                    .write_all(self.as_ref().as_bytes())
-                    .map_err(|err| WriteError::Other(err.into()))
-            })
-            .map(|_| ())
+            .write_text_content(BytesText::new(self.as_ref()))?;
+        Ok(())
     }
 }
 
